@@ -9,6 +9,7 @@ import GrVerif.Proofs.MapBound
 import GrVerif.Proofs.DataSafe
 import GrVerif.Proofs.Total
 import GrVerif.Gen.SlotMap
+import GrVerif.Gen.KernCap
 import GrVerif.Props.C07
 /-!
 # C02 — shaping any accepted font with any text is safe, terminating and bounded   (partial)
@@ -326,6 +327,18 @@ theorem pipeline_never_faults_on_loaded_fonts (font : Font) (hfull : fontFull fo
     (hi : font.ipos ≤ font.passes.size) (hL : ∀ k, k < font.passes.size → 1 ≤ (font.passes.getD k default).maxLoop)
     (text : List Nat) (fuel : Nat) (dir : Nat) : ∃ r, shape font text fuel dir = .ok r :=
   pipeline_never_faults font hfull (loader_accepted_font_passes_cursor_tests font hloaded) hi hL text fuel dir
+
+/-! ### collision kerning: the slice count of `KernCollider::initSlot`
+
+`Pass::collisionKern` hands `KernCollider::initSlot` the y-extent of every slot of the segment, and positions are whatever the font's rules
+made them, so the quotient from which the number of slices is computed is not bounded by anything the loader checks.  What the code of this
+run does with it is regenerated into `Gen/KernCap.lean`: the quotient is tested, as a float, against `MAX_KERN_SLICES` before it is
+converted to `int` and used as the size of `_edges` - so the conversion is defined (`MAX_KERN_SLICES` fits an `int`, and the negated
+comparison also refuses NaN) and one call allocates at most `MAX_KERN_SLICES` floats.  The floating-point arithmetic itself is not
+modelled; stage (c4) of `tools/props/c02.py` shapes such fonts on the implementation.  (On the pinned tree the conversion comes first:
+fix aa912f89.) -/
+theorem kern_slice_count_is_tested_before_it_is_used :
+    Gen.KernCap.countTestedBeforeConversion = true ∧ Gen.KernCap.maxKernSlices < 2 ^ 31 ∧ 4 * Gen.KernCap.maxKernSlices ≤ 2 ^ 20 := by decide
 
 /-! non-vacuity: the second pass of `tests/fonts/small.ttf` (bytes [215, 334) of its Silf sub-table; one rule of two slots whose action is
 `copy_next; put_copy 0; …; next; ret_zero`) is accepted by the loader model, and the theorem gives `passOK` of the pass built from it -/
